@@ -13,6 +13,7 @@ import time
 import z3
 
 FEAS_TIMEOUT_MS = 20000
+MAX_DECISIONS = 600
 
 
 class Unmodelled(Exception):
@@ -39,6 +40,8 @@ class Ctx:
         self.solver_time = 0.0
         self.nfresh = 0
         self.cuts = 0
+        self.feas_unknown = 0
+        self.aux_bounds = {}
 
     def add_side(self, c):
         self.solver.add(c)
@@ -66,9 +69,11 @@ class Ctx:
         self.nqueries += 1
         return r, m
 
-    def aux(self, prefix):
+    def aux(self, prefix, lo=None, hi=None):
         self.nfresh += 1
-        return z3.Int(f'{prefix}!{self.nfresh}')
+        name = f'{prefix}!{self.nfresh}'
+        self.aux_bounds[name] = (lo, hi)
+        return z3.Int(name)
 
     def branch(self, cond, payload=None):
         cond = z3.simplify(cond)
@@ -77,16 +82,22 @@ class Ctx:
         if z3.is_false(cond):
             return False
         i = len(self.decisions)
+        if i >= MAX_DECISIONS:
+            raise Unmodelled(f'more than {MAX_DECISIONS} symbolic decisions on one path (unbounded loop?)')
         if i < len(self.prefix):
             taken = self.prefix[i][0]
             self.decisions.append((cond, taken, None, payload))
         else:
             rt = self.check(cond)
-            if rt == 'unknown':
-                raise Unmodelled('solver unknown at branch')
             rf = self.check(z3.Not(cond))
+            # 'unknown' feasibility is treated as feasible: exploring an infeasible path is sound (its path
+            # condition is unsatisfiable, so none of its obligations can yield a model); counted.
+            if rt == 'unknown':
+                rt = 'sat'
+                self.feas_unknown += 1
             if rf == 'unknown':
-                raise Unmodelled('solver unknown at branch')
+                rf = 'sat'
+                self.feas_unknown += 1
             if rt == 'sat':
                 taken, other = True, rf == 'sat'
             elif rf == 'sat':
@@ -126,7 +137,7 @@ def explore(fn, max_paths=5000):
     fn gets no arguments; it uses Ctx.cur.  Each record is whatever fn returns."""
     stack = []
     records = []
-    stats = dict(paths=0, aborted=0, queries=0, solver_time=0.0, decisions=0, complete=False)
+    stats = dict(paths=0, aborted=0, queries=0, solver_time=0.0, decisions=0, complete=False, feas_unknown=0)
     while True:
         ctx = Ctx([(d[0], d[2]) for d in stack])
         Ctx.cur = ctx
@@ -140,6 +151,7 @@ def explore(fn, max_paths=5000):
         stats['paths'] += 1
         stats['queries'] += ctx.nqueries
         stats['solver_time'] += ctx.solver_time
+        stats['feas_unknown'] += ctx.feas_unknown
         for cond, taken, other, payload in ctx.decisions[len(stack):]:
             stack.append([taken, bool(other), payload])
             stats['decisions'] += 1
@@ -409,6 +421,12 @@ class SymInt:
                 return s
             u = _u_of(s, o)
             t, lo, hi = _reduce(u, o)
+            if o <= EAGER_MOD_MAX[0] and not (1 < o <= FORK_MOD_MAX[0]):
+                # small modulus: reduce eagerly (keeps bit-vector widths small for the BV route)
+                return SymInt(t, lo, hi)
+            if 1 < o <= FORK_MOD_MAX[0] and not z3.is_int_value(z3.simplify(t)):
+                # fork on the residue: every later bit test of it is concrete (masked openings)
+                return Ctx.cur.concretize(t)
             return SymInt(t, lo, hi, (u, o))
         if isinstance(o, builtins.int) and not isinstance(o, bool) and o < 0:
             r = (-s) % (-o)
@@ -689,6 +707,8 @@ class InvConst(builtins.int):
 
 
 EXACTDIV = [True]
+EAGER_MOD_MAX = [0]   # moduli up to this are reduced eagerly (no congruence view)
+FORK_MOD_MAX = [0]      # x % n with n <= this forks on the residue (set by harnesses of masked-opening protocols)
 
 
 def _mul_invconst(s, o):
@@ -701,11 +721,14 @@ def _mul_invconst(s, o):
         if ctx.check(u.t % o.d != 0) == 'unsat':
             q = SymInt(u.t / o.d, u.lo // o.d, u.hi // o.d)
             return SymInt(q.t, q.lo, q.hi, (U(q.t, q.lo, q.hi), o.p))
-    y = ctx.aux('fdiv')
-    k = ctx.aux('fdivk')
-    side = z3.And(y >= 0, y < o.p, y * o.d - u.t == k * o.p)
+    y = ctx.aux('fdiv', 0, o.p - 1)
     if u.lo is not None and u.hi is not None:
-        side = z3.And(side, k >= (0 - u.hi) // o.p - 1, k <= ((o.p - 1) * o.d - u.lo) // o.p + 1)
+        klo, khi = (0 - u.hi) // o.p - 1, ((o.p - 1) * o.d - u.lo) // o.p + 1
+        k = ctx.aux('fdivk', klo, khi)
+        side = z3.And(y >= 0, y < o.p, y * o.d - u.t == k * o.p, k >= klo, k <= khi)
+    else:
+        k = ctx.aux('fdivk')
+        side = z3.And(y >= 0, y < o.p, y * o.d - u.t == k * o.p)
     ctx.add_side(side)
     r = SymInt(y, 0, o.p - 1)
     r.cong = (U(y, 0, o.p - 1), o.p)
@@ -728,7 +751,7 @@ def _sym_invert(a, p):
 
 def _mkfrac(N, D, p):
     ctx = Ctx.cur
-    y = ctx.aux('inv')
+    y = ctx.aux('inv', 0, p - 1)
     ctx.add_side(z3.And(y >= 0, y < p, (y * D.t - N.t) % p == 0))
     return SymInt(y, 0, p - 1, (U(y, 0, p - 1), p), (N, D, p))
 
